@@ -42,6 +42,20 @@ def done_future(v):
     return fut
 
 
+def require_made(cid):
+    """A contract factory: every precondition it makes is created at this one source location."""
+    def made_pre():
+        return V.c('pre', cid)
+    return icontract.require(made_pre, '#%d' % cid)
+
+
+def ensure_made(cid):
+    """A contract factory for postconditions (one source location for all of them)."""
+    def made_post(result):
+        return V.c('post', cid, result=result)
+    return icontract.ensure(made_post, '#%d' % cid)
+
+
 class Fac:
     """Holder of bound-method error factories."""
     pass
@@ -170,6 +184,8 @@ class Renderer:
                 lines.append("%s@foreign" % ind)
             elif t == "abstract":
                 lines.append("%s@abc.abstractmethod" % ind)
+            elif t in ("require", "ensure") and d.get("made"):
+                lines.append("%s@%s_made(%d)" % (ind, t, d["cid"]))
             elif t in ("require", "ensure"):
                 role = "pre" if t == "require" else "post"
                 parts = [self.cond_expr(role, d), repr("#%d" % d["cid"])]
